@@ -13,3 +13,8 @@ Definition prim_diag : list (N * N * N) * list N :=
        (firstn 20 (flat_map (filter (fun r => negb (pthr_ok r))) g_thr)),
    map (fun r : int * int * int => let '(n, _, _) := r in pi2n n) (firstn 20 (filter (fun r => negb (plock_ok r)) g_locks))).
 Eval vm_compute in prim_diag.
+
+Definition fi_diag : list (N * N * N * N) :=
+  map (fun r : int * int * int * int * int => let '(m, k, h, n, _) := r in (pi2n m, pi2n k, pi2n h, pi2n n))
+      (firstn 20 (flat_map (filter (fun r => negb (pfi_ok r))) g_fi)).
+Eval vm_compute in fi_diag.
